@@ -500,6 +500,26 @@ fn build_attack(c: &Case, cx: &Ctx) -> AttackInfo {
             }
         }
     }
+    // the same for a begin whose body the strict reference parser refuses but a lenient decoder may still
+    // read (e.g. a list whose size byte is wrong): walk the frames by their size fields
+    if info.framing_intact && cx.has_session {
+        let b = &info.bytes;
+        let mut pos = 0usize;
+        while pos + 8 <= b.len() {
+            let size = u32::from_be_bytes([b[pos], b[pos + 1], b[pos + 2], b[pos + 3]]) as usize;
+            if size < 8 || pos + size > b.len() {
+                break;
+            }
+            let ch = u16::from_be_bytes([b[pos + 6], b[pos + 7]]);
+            let body = &b[pos + (b[pos + 4] as usize * 4).min(size)..pos + size];
+            let is_begin = (body.len() >= 3 && body[0] == 0 && body[1] == 0x53 && body[2] == 0x11) || (body.len() >= 10 && body[0] == 0 && body[1] == 0x80 && body[2..9] == [0, 0, 0, 0, 0, 0, 0] && body[9] == 0x11);
+            if b[pos + 5] == 0 && ch == PEER_CH && is_begin {
+                info.framing_intact = false;
+                info.incoherent = true;
+            }
+            pos += size;
+        }
+    }
     if c.repeat > 1 && info.framing_intact {
         let one = info.bytes.clone();
         for _ in 1..c.repeat {
